@@ -30,15 +30,8 @@ def thin_fields_read(fn):
     return out
 
 
-def run(ctx):
-    rep = ctx.report
-    prog = ctx.prog("trusted")
-    rep.rule("C01.R1", "A5/A10 queue key agreement: cmp_thin, bucket16 and the dedupe index use the same key components; digit table; pass bound")
-    rep.rule("C01.R2", "A8/A7 executors see an immutable pre-tick view (types)")
-    rep.rule("C01.R3", "A1 dominance: pre-state clone before application; all executors before apply_to_state; patch from merged deltas")
-    rep.rule("C01.R4", "A1 canonicalisation: sort on sort_key and conflict rejection dominate every Ok return of the merge")
-    rep.rule("C01.R6", "A9 no ambient nondeterminism reachable from the commit path")
-
+def queue_order_rules(rep, prog, rid):
+    """Pending-queue ordering / dedupe rules, shared by C01.R1 and C03.R6."""
     # ---------------- R1
     cmp_thin = prog.fn(SCHED + "cmp_thin")
     bucket = prog.fn(SCHED + "bucket16")
@@ -47,11 +40,11 @@ def run(ctx):
     for f in tr_cmp:
         read_cmp |= thin_fields_read(f)
     read_b = thin_fields_read(bucket)
-    rep.check(read_cmp == KEY_FIELDS, "C01.R1", "cmp_thin:key-components", "cmp_thin reads %s" % sorted(read_cmp),
+    rep.check(read_cmp == KEY_FIELDS, rid, "cmp_thin:key-components", "cmp_thin reads %s" % sorted(read_cmp),
               "cmp_thin reads %s, expected %s" % (sorted(read_cmp), sorted(KEY_FIELDS)), site=cmp_thin.loc())
-    rep.check(read_b == KEY_FIELDS, "C01.R1", "bucket16:key-components", "bucket16 reads %s" % sorted(read_b),
+    rep.check(read_b == KEY_FIELDS, rid, "bucket16:key-components", "bucket16 reads %s" % sorted(read_b),
               "bucket16 reads %s, expected %s" % (sorted(read_b), sorted(KEY_FIELDS)), site=bucket.loc())
-    rep.check(read_b == read_cmp, "C01.R1", "cmp_thin~bucket16:agree", "both orderings use the same components",
+    rep.check(read_b == read_cmp, rid, "cmp_thin~bucket16:agree", "both orderings use the same components",
               "the two orderings disagree on key components: %s vs %s" % (sorted(read_cmp), sorted(read_b)), site=bucket.loc())
     # digit table: switch on `pass`
     og = bucket.origins()
@@ -63,7 +56,7 @@ def run(ctx):
             if any(a.kind == "param" and a.key == 2 and not a.steps for a in at):
                 if len(t["v"]) >= 2:
                     sw = (bi, t)
-    rep.check(sw is not None, "C01.R1", "bucket16:digit-switch", "bucket16 switches on its pass parameter",
+    rep.check(sw is not None, rid, "bucket16:digit-switch", "bucket16 switches on its pass parameter",
               "no switch on the pass parameter found in bucket16", site=bucket.loc())
     got_digits = {}
     if sw:
@@ -81,7 +74,7 @@ def run(ctx):
                         if pi == 1 and fl:
                             got_digits[val] = (fl[-1], idx)
         for val, want in sorted(DIGITS.items()):
-            rep.check(got_digits.get(val) == want, "C01.R1", "bucket16:digit:%s" % val,
+            rep.check(got_digits.get(val) == want, rid, "bucket16:digit:%s" % val,
                       "pass %s extracts %s digit %d" % (val, want[0], want[1]),
                       "pass %s extracts %s, expected %s (LSD order nonce<rule<scope)" % (val, got_digits.get(val), want), site=bucket.loc())
     # scope passes: range constants lo/hi and the mirror constant
@@ -98,7 +91,7 @@ def run(ctx):
             if v is not None:
                 sub_consts.add(v)
     scope_calls = [b for b in bucket.call_sites(r"u16_be_from_pair32$")]
-    rep.check(len(scope_calls) >= 1, "C01.R1", "bucket16:scope-digits", "scope digits extracted by u16_be_from_pair32",
+    rep.check(len(scope_calls) >= 1, rid, "bucket16:scope-digits", "scope digits extracted by u16_be_from_pair32",
               "bucket16 no longer extracts scope digits via u16_be_from_pair32", site=bucket.loc())
     lo = len(DIGITS)
     # scope is [u8;32] => 16 two-byte digits
@@ -110,14 +103,14 @@ def run(ctx):
         m = _re.match(r"\[u8; (\d+)\]", scope_ty[0])
         if m:
             nbytes = int(m.group(1))
-    rep.check(nbytes is not None, "C01.R1", "thin:scope-width", "scope_be32 is [u8; %s]" % nbytes, "scope_be32 is not a byte array: %s" % scope_ty, site=THIN)
+    rep.check(nbytes is not None, rid, "thin:scope-width", "scope_be32 is [u8; %s]" % nbytes, "scope_be32 is not a byte array: %s" % scope_ty, site=THIN)
     if nbytes:
         hi = lo + nbytes // 2 - 1
         total = hi + 1
-        rep.check({lo, hi} <= cmp_consts, "C01.R1", "bucket16:scope-pass-range",
+        rep.check({lo, hi} <= cmp_consts, rid, "bucket16:scope-pass-range",
                   "scope passes cover %d..=%d (%d bytes / 2 digits)" % (lo, hi, nbytes),
                   "scope pass range constants %s do not include %d and %d" % (sorted(cmp_consts), lo, hi), site=bucket.loc())
-        rep.check(hi in sub_consts, "C01.R1", "bucket16:scope-pass-mirror",
+        rep.check(hi in sub_consts, rid, "bucket16:scope-pass-mirror",
                   "pair index = %d - pass (least-significant pair first)" % hi,
                   "pair index is not computed as %d - pass (constants subtracted from: %s)" % (hi, sorted(sub_consts)), site=bucket.loc())
         rs = prog.fn(SCHED + "PendingTx::<P>::radix_sort")
@@ -128,49 +121,65 @@ def run(ctx):
                 s0 = const_int(rv["os"][0])
                 if v is not None and s0 == 0:
                     ends.add(v)
-        rep.check(total in ends, "C01.R1", "radix_sort:pass-count",
+        rep.check(total in ends, rid, "radix_sort:pass-count",
                   "radix_sort runs passes 0..%d = every digit bucket16 covers" % total,
                   "radix_sort pass ranges %s do not equal the %d digits bucket16 covers" % (sorted(ends), total), site=rs.loc())
-        rep.check(len(rs.call_sites(r"scheduler::bucket16$")) >= 2, "C01.R1", "radix_sort:uses-bucket16",
+        # every pass runs: from the pass loop's Some-edge no path returns to the loop head without the count and scatter (bucket16) steps.
+        # (A data-dependent pass skip makes the sort's correctness a value-level argument about the skip predicate.)
+        bk = rs.call_sites(r"scheduler::bucket16$")
+        ogr = rs.origins()
+        outer = None
+        for h in loop_heads(rs):
+            if "ops::Range<" in (rs.callee_of(rs.blocks[h]["t"]) or ""):
+                outer = h
+        rep.check(outer is not None, rid, "radix_sort:pass-loop", "pass loop found", "could not identify the `for pass in 0..N` loop", site=rs.loc())
+        if outer is not None and bk:
+            re_ = result_edges(rs, outer)
+            for (sw, tgt) in re_["some"]:
+                inner = [h for h in loop_heads(rs) if h != outer]  # the count / prefix / scatter loops themselves (empty-slice exits are infeasible: n > 1)
+                w = rs.path([tgt], [outer], avoid_blocks=bk + inner, avoid_edges=set(re_["none"]))
+                rep.check(w is None, rid, "radix_sort:every-pass-executes", "no pass can be skipped: every iteration counts and scatters by bucket16",
+                          "a radix pass can be skipped (path back to the loop head without bucket16): %s — canonical order then depends on the skip predicate" % rs.describe_path(w), site=rs.loc())
+        rep.check(len(rs.call_sites(r"scheduler::bucket16$")) >= 2, rid, "radix_sort:uses-bucket16",
                   "count and scatter both use bucket16", "radix_sort no longer uses bucket16 for both count and scatter", site=rs.loc())
     # drain reaches both sorts, compares with the threshold, and hands cmp_thin to the comparison sort
     dr = prog.fn(SCHED + "PendingTx::<P>::drain_in_order")
     sorts = dr.call_sites(r"sort_unstable_by$|::sort_by$")
     rad = dr.call_sites(r"PendingTx::<P>::radix_sort$")
-    rep.check(len(sorts) == 1 and len(rad) == 1, "C01.R1", "drain:both-sorts", "drain_in_order reaches comparison sort and radix sort",
+    rep.check(len(sorts) == 1 and len(rad) == 1, rid, "drain:both-sorts", "drain_in_order reaches comparison sort and radix sort",
               "drain_in_order sort calls: cmp=%d radix=%d" % (len(sorts), len(rad)), site=dr.loc())
     for b in sorts:
         t = dr.blocks[b]["t"]
         fnarg = [o.get("fn") for o in t["args"] if "fn" in o]
-        rep.check(any((x or "").endswith("scheduler::cmp_thin") for x in fnarg), "C01.R1", "drain:cmp-sort-uses-cmp_thin",
+        rep.check(any((x or "").endswith("scheduler::cmp_thin") for x in fnarg), rid, "drain:cmp-sort-uses-cmp_thin",
                   "comparison sort is given cmp_thin", "comparison sort comparator is %s, not cmp_thin" % fnarg, site=dr.loc(t.get("line")))
     thr = [1 for (bb, kind, a, b, res, line) in comparisons(dr) if "SMALL_SORT_THRESHOLD" in str(a.get("def", "")) + str(b.get("def", ""))
            or "SMALL_SORT_THRESHOLD" in str(a.get("k", "")) + str(b.get("k", ""))]
-    rep.check(bool(thr), "C01.R1", "drain:threshold-compare", "sort choice compares the batch size with SMALL_SORT_THRESHOLD",
+    rep.check(bool(thr), rid, "drain:threshold-compare", "sort choice compares the batch size with SMALL_SORT_THRESHOLD",
               "no comparison with SMALL_SORT_THRESHOLD in drain_in_order", site=dr.loc())
     # every path from entry to the drain loop with n>1 passes a sort: the `drain(..)` call is dominated by (sort | radix | n<=1 edge)
     drains = dr.call_sites(r"Vec.*::drain$")
-    rep.check(len(drains) == 1, "C01.R1", "drain:drain-site", "one drain of the thin vector", "expected one Vec::drain call, got %d" % len(drains), site=dr.loc())
+    rep.check(len(drains) == 1, rid, "drain:drain-site", "one drain of the thin vector", "expected one Vec::drain call, got %d" % len(drains), site=dr.loc())
     # dedupe key
     enq = prog.fn(SCHED + "PendingTx::<P>::enqueue")
     ogq = enq.origins()
     gets = enq.call_sites(r"BTreeMap.*::get$")
     inserts = enq.call_sites(r"BTreeMap.*::insert$")
-    rep.check(len(gets) == 1 and len(inserts) == 1, "C01.R1", "enqueue:index-lookups", "one index lookup and one index insert",
+    rep.check(len(gets) == 1 and len(inserts) == 1, rid, "enqueue:index-lookups", "one index lookup and one index insert",
               "index get/insert sites: %d/%d" % (len(gets), len(inserts)), site=enq.loc())
     for b in gets + inserts:
         t = enq.blocks[b]["t"]
         params = set(a.key for a in ogq.of_operand(t["args"][1], deep=True) if a.kind == "param")
-        rep.check({2, 3} <= params and 4 not in params, "C01.R1", "enqueue:dedupe-key:%s" % ("get" if b in gets else "insert"),
+        rep.check({2, 3} <= params and 4 not in params, rid, "enqueue:dedupe-key:%s" % ("get" if b in gets else "insert"),
                   "index key derives from (scope, rule id) only", "index key derives from params %s, expected {scope, rule_id}" % sorted(params),
                   site=enq.loc(t.get("line")))
     thin_aggs = [(bi, rv) for bi, si, place, rv, line in enq.assigns() if rv["r"] == "agg" and rv.get("adt") == THIN]
-    rep.check(len(thin_aggs) == 1, "C01.R1", "enqueue:thin-construction", "one RewriteThin construction", "RewriteThin constructions: %d" % len(thin_aggs), site=enq.loc())
+    rep.check(len(thin_aggs) == 1, rid, "enqueue:thin-construction", "one RewriteThin construction", "RewriteThin constructions: %d" % len(thin_aggs), site=enq.loc())
     for bi, rv in thin_aggs:
         m = dict(zip(rv["fields"], rv["os"]))
         ps = set(a.key for a in ogq.of_operand(m["scope_be32"], deep=True) if a.kind == "param")
         pr = set(a.key for a in ogq.of_operand(m["rule_id"], deep=True) if a.kind == "param")
-        rep.check(ps == {2} and pr == {3}, "C01.R1", "enqueue:thin-key-fields", "thin key fields come from the (scope, rule) parameters",
+        rep.check(ps == {2} and pr == {3}, rid, "enqueue:thin-key-fields", "thin key fields come from the (scope, rule) parameters",
                   "RewriteThin.scope_be32/rule_id derive from params %s/%s" % (sorted(ps), sorted(pr)), site=enq.loc())
     # dedupe-index position stability: `index` stores positions into `thin`; an operation that moves/removes elements of `thin`
     # must be followed by `index.clear()` before returning (drain does), or the function must re-point the displaced key too
@@ -197,10 +206,10 @@ def run(ctx):
         rets = f.return_blocks()
         w = f.path([f.blocks[movers[0]]["t"].get("tgt") or movers[0]], rets, avoid_blocks=clears)
         okm = (w is None) or len(idx_writes) >= 2
-        rep.check(okm, "C01.R1", "dedupe-index:positions-stable:%s" % f.name, "thin is reordered only where the index is cleared afterwards (or the displaced key is re-pointed)",
+        rep.check(okm, rid, "dedupe-index:positions-stable:%s" % f.name, "thin is reordered only where the index is cleared afterwards (or the displaced key is re-pointed)",
                   "%s moves elements of `thin` (%s) without clearing the dedupe index or re-pointing the displaced key: a later duplicate enqueue overwrites a different candidate" % (
                       f.name, [(f.callee_of(f.blocks[b]["t"]) or "").rsplit("::", 1)[-1] for b in movers]), site=f.loc())
-    rep.check(n_movers >= 1, "C01.R1", "dedupe-index:movers-found", "%d PendingTx function(s) reorder thin (drain)" % n_movers, "no function reorders thin (drain vanished?)", site=PT)
+    rep.check(n_movers >= 1, rid, "dedupe-index:movers-found", "%d PendingTx function(s) reorder thin (drain)" % n_movers, "no function reorders thin (drain vanished?)", site=PT)
     renq = prog.fn(SCHED + "RadixScheduler::enqueue")
     ogr = renq.origins()
     for b in renq.call_sites(r"PendingTx::<P>::enqueue$"):
@@ -208,8 +217,21 @@ def run(ctx):
         a1 = ogr.of_operand(t["args"][1], deep=True)
         a2 = ogr.of_operand(t["args"][2], deep=True)
         rep.check(any(steps_have(a, "PendingRewrite", "scope_hash") for a in a1) and any(steps_have(a, "PendingRewrite", "compact_rule") for a in a2),
-                  "C01.R1", "scheduler-enqueue:key", "queue key = (rewrite.scope_hash, rewrite.compact_rule)",
+                  rid, "scheduler-enqueue:key", "queue key = (rewrite.scope_hash, rewrite.compact_rule)",
                   "queue key is not (scope_hash, compact_rule)", site=renq.loc(t.get("line")))
+
+
+
+def run(ctx):
+    rep = ctx.report
+    prog = ctx.prog("trusted")
+    rep.rule("C01.R1", "A5/A10 queue key agreement: cmp_thin, bucket16 and the dedupe index use the same key components; digit table; pass bound")
+    rep.rule("C01.R2", "A8/A7 executors see an immutable pre-tick view (types)")
+    rep.rule("C01.R3", "A1 dominance: pre-state clone before application; all executors before apply_to_state; patch from merged deltas")
+    rep.rule("C01.R4", "A1 canonicalisation: sort on sort_key and conflict rejection dominate every Ok return of the merge")
+    rep.rule("C01.R6", "A9 no ambient nondeterminism reachable from the commit path")
+
+    queue_order_rules(rep, prog, "C01.R1")
 
     # ---------------- R2
     gv = prog.adt("warp_core::graph_view::GraphView")
